@@ -10,6 +10,10 @@ GapsS == {0, 1, 2, 3, 7}
 GapsD == {0, 1, 2, 3}
 CountsQ == {<<1, 1>>, <<1, 2>>, <<1, 4>>, <<1, 9>>, <<1>>, <<2>>, <<5>>, <<>>}
 CountsD == {<<1, 1>>, <<1, 2>>, <<1, 30>>, <<1>>, <<2>>, <<40>>, <<>>}
+(* small instance for WindowBound (the history of admitted tokens is part of the state there) *)
+GridW == {PolM(<<1, 2>>, 2), PolM(<<2>>, 2)}
+GapsW == {0, 1, 3}
+CountsW == {<<1, 1>>, <<1, 5>>, <<1>>, <<5>>}
 GInit == Init /\ out = ToJson([a |-> "init", pol |-> pol])
 GNext == Next /\ out' = ToJson(last')
 GSpec == GInit /\ [][GNext]_<<vars, out>>
